@@ -2,11 +2,12 @@
    Statements only (proofs in Proofs/LabelProofs.v, Proofs/ExtProofs.v, Proofs/ExtStore.v, Proofs/LabelTables.v).
    Model: Model/Seq.v (set_block / get_block, extension library), Model/Labels.v (evaluate_labels),
    Model/LabelEval.v (chain walk with explicit out-of-fuel result, reference interpreter). *)
-From Coq Require Import List Bool ZArith QArith Qcanon Permutation String.
+From Coq Require Import List Bool ZArith QArith Qcanon Qabs Permutation String.
 From RecordUpdate Require Import RecordSet.
 From PV Require Import Base.AList Gen.GenLabels Model.EventLib Model.Seq Model.Labels Model.LabelEval
                        Proofs.SeqSpec Proofs.SeqCache Proofs.LabelProofs Proofs.ExtProofs Proofs.ExtStore
-                       Proofs.LabelTables.
+                       Proofs.LabelTables Gen.GenFile Model.File Model.ExtFile Proofs.FileProofs Proofs.ExtFileProofs
+                       Proofs.ExtFileInv.
 Import ListNotations RecordSetNotations.
 Open Scope Z_scope.
 
@@ -211,6 +212,115 @@ Example C19_history_example :
 Proof.
   split; [repeat constructor|]. vm_compute. repeat split; reflexivity.
 Qed.
+
+(* ==== the extension type table across read() ========================================================= *)
+(* A name seen for the first time gets a number that is not in use — for ANY list of numbers, in
+   particular one that read() filled in file-section order (TRIGGERS, LABELSET, LABELINC), e.g. [2; 1]. *)
+Theorem C19_ext_type_id_fresh : forall c s,
+  index_of s (ext_str c) = None -> ~ In (snd (ext_type_id c s)) (ext_num c).
+Proof. exact ext_type_id_fresh. Qed.
+Print Assumptions C19_ext_type_id_fresh.
+
+(* a known name keeps its number *)
+Theorem C19_ext_type_id_known : forall c ty s,
+  xt_inv c -> ext_type_str c ty = Some s -> ext_type_id c s = (c, ty).
+Proof. exact ext_type_id_known. Qed.
+Print Assumptions C19_ext_type_id_known.
+
+(* the variant `1 + extension_numeric_idx[-1]` is refuted on the store a re-read sequence has when LABELINC
+   was used before LABELSET: the new TRIGGERS type receives the number of LABELSET *)
+Theorem C19_ext_type_id_last_refuted :
+  exists c s, xt_inv c /\ index_of s (ext_str c) = None /\
+    In (snd (ext_type_id_last c s)) (ext_num c) /\
+    ext_type_str (fst (ext_type_id_last c s)) (snd (ext_type_id_last c s)) <> Some s.
+Proof. exact ext_type_id_last_refuted. Qed.
+Print Assumptions C19_ext_type_id_last_refuted.
+
+(* the same two facts for the rule as the translator reads it from get_extension_type_ID *)
+Theorem C19_ext_new_id_fresh : forall l, ~ In (ext_new_id l) l.
+Proof. exact ext_new_id_fresh. Qed.
+Print Assumptions C19_ext_new_id_fresh.
+
+Theorem C19_ext_new_id_is_model : forall l, Forall (fun x => 0 <= x) l ->
+  ext_new_id l = match l with [] => 1 | _ => 1 + max_list l end.
+Proof. exact ext_new_id_is_model. Qed.
+Print Assumptions C19_ext_new_id_is_model.
+
+(* ==== "also after write and read" ======================================================================= *)
+(* Model/ExtFile.v: write_ext / read_ext over the column tables of Gen/GenFile.v (sec_ext, sec_trig, sec_lset,
+   sec_linc: multiplier, np.round, format, read scale — regenerated from write_seq.py / read_seq.py).
+   [file_ready c]: extension type table without duplicates, [ext_wf], ids unique and non-zero, trigger rows
+   (type, channel, delay, duration) with integer codes, label rows (integer value, label id). *)
+
+(* it holds in every state reachable from the empty Sequence (events by value, integer label values) *)
+Theorem C19_file_ready_histories : forall cache_on abs_fix r1 r2 r3 r4 ops g s sl e,
+  Forall op_file_ok ops ->
+  file_ready (st_core (fst (run cache_on abs_fix r1 r2 r3 r4 (mkState (core_init g s sl e) []) ops))).
+Proof. exact run_file_ready. Qed.
+Print Assumptions C19_file_ready_histories.
+
+(* the microsecond rounding of the writer: within half a microsecond, exact on whole microseconds *)
+Theorem C19_round_us_spec : forall x : Qc,
+  (Qabs (this (round_us x) - this x) <= 1 # 2000000)%Q /\ (is_int (this x * us)%Q -> round_us x = x).
+Proof. exact round_us_spec. Qed.
+Print Assumptions C19_round_us_spec.
+
+(* file_roundtrip_ext: write, then read into a fresh Sequence: the reader does not raise; every
+   [EXTENSIONS] row and every label row comes back as it was; every trigger row comes back with delay and
+   duration rounded to whole microseconds; every number <-> name pair of a kind that has events survives *)
+Theorem C19_file_roundtrip_ext : forall c0 c, file_ready c -> ext_l c0 = lib_empty ->
+  exists c', reread_ext c0 c = Some c' /\
+    (forall id, lib_get (ext_l c') id = lib_get (ext_l c) id) /\
+    (forall id, lib_get (lset_l c') id = lib_get (lset_l c) id) /\
+    (forall id, lib_get (linc_l c') id = lib_get (linc_l c) id) /\
+    (forall id, lib_get (trig_l c') id = option_map file_trig_row (lib_get (trig_l c) id)) /\
+    (forall ty s, ext_type_str c ty = Some s -> lib_for c s = true -> ext_type_str c' ty = Some s) /\
+    xt_inv c'.
+Proof. exact file_roundtrip_ext. Qed.
+Print Assumptions C19_file_roundtrip_ext.
+
+(* get_block's chain walk on the re-read store: the same entries in the same order *)
+Theorem C19_dec_ext_reread : forall c0 c c', file_ready c -> ext_l c0 = lib_empty -> reread_ext c0 c = Some c' ->
+  forall f eid r, dec_ext c f eid = Some r ->
+    dec_ext c' f eid = Some (map file_payload r) /\
+    labels_of_ext (map file_payload r) = labels_of_ext r /\
+    trigs_of_ext (map file_payload r) = map file_trig_row (trigs_of_ext r).
+Proof.
+  intros c0 c c' FR E0 R f eid r H. split; [exact (dec_ext_reread c0 c c' FR E0 R f eid r H)|].
+  split; [apply labels_file_payload|apply trigs_file_payload].
+Qed.
+Print Assumptions C19_dec_ext_reread.
+
+(* evaluate_labels after write + read: the label program read off the block table is literally the same
+   (pypulseq keeps the library ids in the file, so not even the order inside a block changes), hence the
+   result is the same for EVERY program, init and mode.  ([BLOCKS] rows are integers: C01.) *)
+Theorem C19_eval_labels_reread : forall c0 c c' init m x,
+  file_ready c -> ext_l c0 = lib_empty -> reread_ext c0 c = Some c' -> blocks c' = blocks c ->
+  eval_table c init m = Some x -> eval_table c' init m = Some x.
+Proof. exact eval_labels_reread. Qed.
+Print Assumptions C19_eval_labels_reread.
+
+Theorem C19_eval_store_is_eval_table : forall c init m x,
+  eval_store c init m = Some x -> eval_table c init m = Some x.
+Proof. exact eval_store_is_eval_table. Qed.
+Print Assumptions C19_eval_store_is_eval_table.
+
+(* Should a reader or writer renumber the label libraries, the labels of a block come back in another
+   order: C19_eval_labels_order_irrelevant covers that under the property's one-operation-per-label
+   hypothesis, C19_eval_labels_order_matters_refuted shows it fails without it. *)
+
+(* non-vacuity: the history example above, written and re-read into a fresh store *)
+Example C19_reread_example :
+  match reread_ext (core_init qc0 qc0 qc0 qc0) ex_core with
+  | Some c' =>
+    ext_num c' = [2; 1] /\ ext_str c' = [XS_TRIGGERS; XS_LABELINC] /\
+    option_map (map (fun kv => fst kv)) (Some (ldata (ext_l c'))) = Some [1; 2; 3; 4] /\
+    option_map labels_of_ext (dec_ext c' 5 4) = option_map labels_of_ext (dec_ext ex_core 5 4) /\
+    option_map (fun x => map (map qz) (trigs_of_ext x)) (dec_ext c' 5 4) = Some [[2; 1; 0; 1]] /\
+    snd (ext_type_id c' XS_LABELSET) = 3
+  | None => False
+  end.
+Proof. vm_compute. repeat split; reflexivity. Qed.
 
 (* ==== tables read from the source (Gen/GenLabels.v) ================================================ *)
 Theorem C19_labels_table : List.length supported_labels = 21%nat /\ NoDup supported_labels.
